@@ -81,10 +81,46 @@ pub fn to_string(v: &V) -> String {
     s
 }
 
+thread_local! {
+    /// when recording: address ranges (pointer, length) of every *borrowed* string met while dumping
+    static BORROWS: std::cell::RefCell<Option<Vec<(usize, usize)>>> = const { std::cell::RefCell::new(None) };
+}
+thread_local! {
+    /// with recording on: do not read the contents of borrowed strings at all (addresses only)
+    static ADDRESSES_ONLY: std::cell::Cell<bool> = const { std::cell::Cell::new(false) };
+}
+pub fn start_recording() {
+    BORROWS.with(|b| *b.borrow_mut() = Some(vec![]));
+}
+pub fn addresses_only(on: bool) {
+    ADDRESSES_ONLY.with(|c| c.set(on));
+}
+pub fn stop_recording() -> Vec<(usize, usize)> {
+    BORROWS.with(|b| b.borrow_mut().take().unwrap_or_default())
+}
+fn record(p: *const u8, n: usize) {
+    BORROWS.with(|b| {
+        if let Some(v) = b.borrow_mut().as_mut() {
+            v.push((p as usize, n));
+        }
+    });
+}
 fn s(c: &Cow<str>) -> V {
+    if let Cow::Borrowed(x) = c {
+        record(x.as_ptr(), x.len());
+        if ADDRESSES_ONLY.with(|c| c.get()) {
+            return V::Bytes(vec![]);
+        }
+    }
     V::Bytes(c.as_bytes().to_vec())
 }
 fn b(c: &Cow<[u8]>) -> V {
+    if let Cow::Borrowed(x) = c {
+        record(x.as_ptr(), x.len());
+        if ADDRESSES_ONLY.with(|c| c.get()) {
+            return V::Bytes(vec![]);
+        }
+    }
     V::Bytes(c.to_vec())
 }
 fn opt<T>(o: &Option<T>, f: impl Fn(&T) -> V) -> V {
